@@ -260,11 +260,9 @@ func checkC20(c *Ctx, r *Report) {
 	registered := map[string]bool{}
 	var regSites []string
 	if fi := need(c, r, "C20.b", "infrastructure/validation.initValidator"); fi != nil {
-		for _, cl := range callsIn(fi.SSA, false, nameIs("(*"+pkgValidator+".Validate).RegisterValidation")) {
-			if k, ok := cl.Common().Args[1].(*ssa.Const); ok {
-				registered[constString(k.Value)] = true
-				regSites = append(regSites, w.pos(cl.Pos()))
-			}
+		for _, rg := range w.validationRegistrations(fi) {
+			registered[rg.Tag] = true
+			regSites = append(regSites, w.pos(rg.Pos))
 		}
 	}
 	{
@@ -410,25 +408,33 @@ func checkC20(c *Ctx, r *Report) {
 		// registered enum validators list exactly the constants of their type
 		for _, e := range []struct{ rule, typ string }{{"security_schema_in", "SecuritySchemeIn"}, {"security_schema_type", "SecuritySchemeType"}} {
 			var listed, sites []string
-			w.inspectRegion(fi, func(n ast.Node) bool {
-				cl, ok := n.(*ast.CallExpr)
-				if !ok || len(cl.Args) != 2 || litString(cl.Args[0]) != e.rule {
-					return true
+			for _, rg := range w.validationRegistrations(fi) {
+				if rg.Tag != e.rule {
+					continue
 				}
-				sites = append(sites, w.pos(cl.Pos()))
-				ast.Inspect(cl.Args[1], func(m ast.Node) bool {
-					if comp, ok := m.(*ast.CompositeLit); ok {
-						for _, el := range comp.Elts {
-							if tv, ok := fi.Pkg.TypesInfo.Types[el]; ok && tv.Value != nil {
-								listed = append(listed, constString(tv.Value))
+				sites = append(sites, w.pos(rg.Pos))
+				// the values handed to the enum validator: elements of a slice literal, or the
+				// operands of a variadic constructor
+				ast.Inspect(rg.Fn, func(m ast.Node) bool {
+					var elems []ast.Expr
+					switch y := m.(type) {
+					case *ast.CompositeLit:
+						elems = y.Elts
+					case *ast.CallExpr:
+						if _, isLit := ast.Unparen(y.Fun).(*ast.FuncLit); !isLit && len(y.Args) > 0 {
+							if _, isComp := ast.Unparen(y.Args[0]).(*ast.CompositeLit); !isComp {
+								elems = y.Args
 							}
 						}
-						return false
 					}
-					return true
+					for _, el := range elems {
+						if tv, ok := fi.Pkg.TypesInfo.Types[el]; ok && tv.Value != nil {
+							listed = append(listed, constString(tv.Value))
+						}
+					}
+					return len(elems) == 0 || len(listed) == 0
 				})
-				return true
-			})
+			}
 			consts := values(w.constsOfType(w.lookupType("definitions", e.typ)))
 			ruleSetEqual(c, r, "C20.c", e.rule+":registered==consts", "the values accepted by the `"+e.rule+"` rule are the declared "+e.typ+" constants", "values registered in initValidator", dedupSortedPlain(listed), e.typ+" constants", consts, sites)
 		}
@@ -506,7 +512,22 @@ func checkC20(c *Ctx, r *Report) {
 				}
 			}
 			if n == 0 {
-				v2 = "registerPartials has no engine switch"
+				// the dispatch written another way: comparisons with, or a table keyed by, the engine constants
+				labels, ps := w.dispatchLabels(rp, func(tag ast.Expr) bool {
+					for _, f := range w.astRegion(rp) {
+						if t := f.Pkg.TypesInfo.TypeOf(tag); t != nil && strings.HasSuffix(t.String(), "definitions.RoutingEngineType") {
+							a := w.exprAtoms(f, tag)
+							return a.Fields["definitions.RoutesConfig.Engine"]
+						}
+					}
+					return false
+				})
+				for _, p := range ps {
+					s2 = append(s2, w.pos(p))
+				}
+				if len(labels) < 5 {
+					v2 = fmt.Sprintf("registerPartials does not dispatch on routesConfig.engine over the engine constants (labels found: %v)", labels)
+				}
 			}
 		}
 		r.add("C20.d", "fieldflow", gr+":engine", "the template set and the partials are those of routesConfig.engine", []string{gr}, s2, v2)
@@ -1410,4 +1431,100 @@ func dependsOnMapRangeOf(v ssa.Value, field string, depth int, seen map[ssa.Valu
 		}
 	}
 	return false
+}
+
+// validationRegistrations: the (rule name, validator function) pairs initValidator registers -
+// written as direct RegisterValidation("name", fn) calls, or as rows of a local table of
+// {tag, validate} structs that a loop registers.
+type validationReg struct {
+	Tag string
+	Fn  ast.Expr
+	Pos token.Pos
+}
+
+func (w *World) validationRegistrations(fi *FuncInfo) []validationReg {
+	var out []validationReg
+	info := fi.Pkg.TypesInfo
+	fd := w.defsOf(fi)
+	w.inspectRegion(fi, func(n ast.Node) bool {
+		cl, ok := n.(*ast.CallExpr)
+		if !ok || len(cl.Args) != 2 || !strings.HasSuffix(calleeOfCall(info, cl), ".Validate).RegisterValidation") {
+			return true
+		}
+		if tv, ok := info.Types[cl.Args[0]]; ok && tv.Value != nil {
+			out = append(out, validationReg{constString(tv.Value), cl.Args[1], cl.Pos()})
+			return true
+		}
+		// RegisterValidation(row.tag, row.validate) with row ranging over a slice literal of structs
+		tagSel, ok1 := ast.Unparen(cl.Args[0]).(*ast.SelectorExpr)
+		fnSel, ok2 := ast.Unparen(cl.Args[1]).(*ast.SelectorExpr)
+		if !ok1 || !ok2 {
+			return true
+		}
+		rowId, ok := ast.Unparen(tagSel.X).(*ast.Ident)
+		if !ok || exprString(fnSel.X) != rowId.Name {
+			return true
+		}
+		ranged, ok := fd.rangeOf[info.Uses[rowId]]
+		if !ok {
+			return true
+		}
+		var table *ast.CompositeLit
+		switch t := ast.Unparen(ranged).(type) {
+		case *ast.CompositeLit:
+			table = t
+		case *ast.Ident:
+			for _, d := range fd.defs[info.Uses[t]] {
+				if c, ok := ast.Unparen(d).(*ast.CompositeLit); ok {
+					table = c
+				}
+			}
+		}
+		if table == nil {
+			return true
+		}
+		st, _ := info.TypeOf(tagSel.X).Underlying().(*types.Struct)
+		fieldIdx := func(name string) int {
+			if st != nil {
+				for i := 0; i < st.NumFields(); i++ {
+					if st.Field(i).Name() == name {
+						return i
+					}
+				}
+			}
+			return -1
+		}
+		ti, fi2 := fieldIdx(tagSel.Sel.Name), fieldIdx(fnSel.Sel.Name)
+		for _, row := range table.Elts {
+			rc, ok := row.(*ast.CompositeLit)
+			if !ok {
+				continue
+			}
+			var tagE, fnE ast.Expr
+			for i, el := range rc.Elts {
+				if kv, ok := el.(*ast.KeyValueExpr); ok {
+					switch exprString(kv.Key) {
+					case tagSel.Sel.Name:
+						tagE = kv.Value
+					case fnSel.Sel.Name:
+						fnE = kv.Value
+					}
+				} else {
+					if i == ti {
+						tagE = el
+					}
+					if i == fi2 {
+						fnE = el
+					}
+				}
+			}
+			if tagE != nil && fnE != nil {
+				if tv, ok := info.Types[tagE]; ok && tv.Value != nil {
+					out = append(out, validationReg{constString(tv.Value), fnE, rc.Pos()})
+				}
+			}
+		}
+		return true
+	})
+	return out
 }
